@@ -239,3 +239,86 @@ Print Assumptions C03_mask_roundtrip.
 Print Assumptions C03_sum_Q.
 Print Assumptions C03_password_in_expansion.
 Print Assumptions C03_every_preterminal_is_emitted.
+
+(* ---- translator tie of the trainer half of the pipeline model (harness/translate_trainer_run.py,
+   gen/TrainerRun_gen.v): the whole of run_trainer, translated on every run, with its collaborators
+   instantiated by the component models of Pipeline.v (TrainerRunInst.pipe_collab: Reader.read_text over the
+   file system of WriterRt.v, Segment.train / Segment.parse, the translated print_statistics / Markov block /
+   save_pcfg_data; the OMEN side and the two other writers any functions that do not raise) IS Pipeline.train:
+   where the model's trainer stops without a ruleset, run_trainer returns False / None and writes nothing; when
+   run_trainer returns True, the model's trainer succeeded on the sequence the reader yields and the ruleset on
+   disk is Pipeline.save of what it trained (C06_source_run_trainer_writes_the_model_ruleset) ---- *)
+From Pcfg Require Import TextFile Counters WriterRt WriterSpec TrainerRunRt TrainerRunModel TrainerRunInst.
+From PcfgGen Require Import TrainerRun_gen.
+
+Theorem C03_source_run_trainer_stops_where_the_model_stops :
+  forall (A : palg) (R : parith A) (E : env) (path_of : TextFile.str -> path) (rc : option TextFile.str -> bool -> Reader.rcfg)
+         (AGt OTt KSt : Type) ag_new ag_step ag_alpha ot_new ot_step ot_smooth ks_of level_of ks_counter
+         (repr : num (ops_of R) -> TextFile.str) (encb : TextFile.str -> N -> bool) (calc : counter (ops_of R) -> counter (ops_of R))
+         save_config save_omen (pi : pinfo (ops_of R)) (fs : fsys) (nm text : TextFile.str),
+  let PC := @pipe_collab A R E path_of rc AGt OTt KSt ag_new ag_step ag_alpha ot_new ot_step ot_smooth ks_of level_of
+                         ks_counter repr encb calc save_config save_omen in
+  pi_training_file pi = Some nm -> fs_get (path_of nm) fs = Some text ->
+  (ostr_truthy (pi_multiword pi) = true -> exists mnm mtext, pi_multiword pi = Some mnm /\ fs_get (path_of mnm) fs = Some mtext) ->
+  (e_mw_threshold E = 5%Z /\ e_mw_min_len E = 4%Z /\ e_mw_max_len E = 21%Z) ->
+  reader_agrees E rc ->
+  let seq := Reader.out (Reader.read_text (rc (pi_encoding pi) (pi_prefixcount pi)) text) in
+  Reader.npw (Reader.read_text (rc (pi_encoding pi) (pi_prefixcount pi)) text) = Z.of_nat (length seq) ->
+  forall base : path,
+  Pipeline.train E (pipe_options R path_of rc pi fs) seq = None ->
+  py_run_trainer PC pi base fs = (Ok (if @Reader.is_nil TextFile.str seq then Some false else None), fs).
+Proof.
+  intros A R E path_of rc AGt OTt KSt ag_new ag_step ag_alpha ot_new ot_step ot_smooth ks_of level_of ks_counter repr encb calc
+         save_config save_omen pi fs nm text PC H1 H2 H3 H4 H5 seq H6 base.
+  exact (run_trainer_none R E path_of rc AGt OTt KSt ag_new ag_step ag_alpha ot_new ot_step ot_smooth ks_of level_of
+           ks_counter repr encb calc save_config save_omen pi fs nm text H1 H2 H3 H4 H5 H6 base).
+Qed.
+
+Theorem C03_source_run_trainer_writes_the_model_ruleset :
+  forall (A : palg) (R : parith A) (E : env) (path_of : TextFile.str -> path) (rc : option TextFile.str -> bool -> Reader.rcfg)
+         (AGt OTt KSt : Type) ag_new ag_step ag_alpha ot_new ot_step ot_smooth ks_of level_of ks_counter
+         (repr : num (ops_of R) -> TextFile.str) (encb : TextFile.str -> N -> bool) (calc : counter (ops_of R) -> counter (ops_of R))
+         save_config save_omen (pi : pinfo (ops_of R)) (fs : fsys) (nm text : TextFile.str),
+  let PC := @pipe_collab A R E path_of rc AGt OTt KSt ag_new ag_step ag_alpha ot_new ot_step ot_smooth ks_of level_of
+                         ks_counter repr encb calc save_config save_omen in
+  pi_training_file pi = Some nm -> fs_get (path_of nm) fs = Some text ->
+  (ostr_truthy (pi_multiword pi) = true -> exists mnm mtext, pi_multiword pi = Some mnm /\ fs_get (path_of mnm) fs = Some mtext) ->
+  (e_mw_threshold E = 5%Z /\ e_mw_min_len E = 4%Z /\ e_mw_max_len E = 21%Z) ->
+  reader_agrees E rc ->
+  let rd := Reader.read_text (rc (pi_encoding pi) (pi_prefixcount pi)) text in
+  Reader.npw rd = Z.of_nat (length (Reader.out rd)) ->
+  (forall c, calc c = calc_probs c) -> fs_wf fs ->
+  (forall b p f po w, fs_wf w -> fs_wf (snd (save_config b p f po w))) ->
+  (forall ot ks lc n b p w, fs_wf w -> fs_wf (snd (save_omen ot ks lc n b p w))) ->
+  forall (base : path) (fs' : fsys),
+  py_run_trainer PC pi base fs = (Ok (Some true), fs') ->
+  exists (t : trained A) (fs2 : fsys) (enc : TextFile.str),
+    Pipeline.train E (pipe_options R path_of rc pi fs) (Reader.out rd) = Some t /\
+    t_n t = N.of_nat (length (Reader.out rd)) /\ t_cov t = pi_coverage pi /\ t_sens t = pi_save_sensitive pi /\
+    pi_encoding pi = Some enc /\
+    ruleset_encodable repr encb enc (s_files (Pipeline.save R t)) = true /\
+    fs_wf fs2 /\
+    fs' = install_all repr base (s_files (Pipeline.save R t)) fs2.
+Proof.
+  intros A R E path_of rc AGt OTt KSt ag_new ag_step ag_alpha ot_new ot_step ot_smooth ks_of level_of ks_counter repr encb calc
+         save_config save_omen pi fs nm text PC H1 H2 H3 H4 H5 rd H6 H7 H8 H9 H10 base fs'.
+  exact (run_trainer_writes_pipeline_ruleset R E path_of rc AGt OTt KSt ag_new ag_step ag_alpha ot_new ot_step ot_smooth ks_of level_of
+           ks_counter repr encb calc save_config save_omen pi fs nm text H1 H2 H3 H4 H5 H6 H7 H8 H9 H10 base fs').
+Qed.
+
+(* the hypotheses hold on a concrete run (TrainerRunExample.v: the environment of the current sources, a
+   four-line training file, coverage 0.6): the translated run_trainer returns True and leaves Grammar/grammar.txt *)
+From Pcfg Require Import TrainerRunExample.
+Theorem C03_source_run_trainer_example :
+  fst ex_run = Ok (Some true) /\
+  (e_mw_threshold c_env = 5%Z /\ e_mw_min_len c_env = 4%Z /\ e_mw_max_len c_env = 21%Z) /\
+  reader_agrees c_env ex_rc /\
+  Reader.npw ex_rd = Z.of_nat (length (Reader.out ex_rd)) /\
+  fs_wf ex_fs.
+Proof.
+  split; [exact ex_run_returns_true|]. destruct ex_hypotheses as (Ha & Hb & Hc & _ & Hd). repeat split; assumption.
+Qed.
+
+Print Assumptions C03_source_run_trainer_stops_where_the_model_stops.
+Print Assumptions C03_source_run_trainer_writes_the_model_ruleset.
+Print Assumptions C03_source_run_trainer_example.
